@@ -323,9 +323,11 @@ def shard_layer(col, shard_i, n):
         channel = rng.choice(['kw', 'kw', 'obj', 'both'])
         try:
             gm = peg.Grammar('T', rules, directives=dict(dr), **ct)
+            pt_obj = {}
             if channel == 'kw':
                 cfg = gm.new_parse_config(**pt)
             elif channel == 'obj':
+                pt_obj = dict(pt)
                 cfg = gm.new_parse_config(config=ParserConfig(**pt))
             else:
                 pt_obj = {f: v for f, v in pt.items() if rng.random() < 0.6}
@@ -342,9 +344,9 @@ def shard_layer(col, shard_i, n):
             return '(' + ' '.join(f'({sx(f)} {"none" if enc(d[f]) is None else "(some %d)" % enc(d[f])})' for f in d) + ')'
         dflt = {f: getattr(defaults, f) for f in FIELDS}
         reqs.append(f'(layer {fields(dflt)} {fields(ct)} {fields(dr)} {fields(pt)})')
-        want.append((ct, dr, pt, impl, channel))
+        want.append((ct, dr, pt, impl, channel, pt_obj))
     replies = mr.ask(reqs)
-    for (ct, dr, pt, impl, channel), rep in zip(want, replies):
+    for (ct, dr, pt, impl, channel, pt_obj), rep in zip(want, replies):
         model = {}
         for k, v in rep:
             name = vlib.sx_str(k)
@@ -361,7 +363,7 @@ def shard_layer(col, shard_i, n):
             # __post_init__ couplings: memoization off forces left_recursion off; namechars forces nameguard on
             if f == 'left_recursion' and not impl['memoization']:
                 continue
-            if f == 'left_recursion' and channel != 'kw' and 'memoization' in pt_named(pt) and not pt.get('memoization'):
+            if f == 'left_recursion' and channel != 'kw' and 'memoization' in pt_obj and not pt_obj.get('memoization'):
                 continue      # ParserConfig(memoization=None/False) switches its OWN left_recursion off when the object is built
             if f == 'nameguard' and (impl['namechars'] or any(d.get('namechars') for d in (ct, dr, pt))):
                 continue      # the coupling is applied by every layer's __post_init__, so it sticks once any layer names namechars
